@@ -564,9 +564,10 @@ func (x *Explorer) stepStore(st *State, v *ssa.Store) {
 					x.L.Event(x, st, &Event{Kind: EvIdxContainerStore, Instr: v, Tags: bt, VTags: vt, Struct: n, Field: f})
 				}
 			case (n == a.Async && f.Exported()) || (n == a.Schema && (f == a.SchCache || f == a.SchAsync)):
-				// settings of a schema that is still private to this call (the caller's value, a freshly decoded one)
-				// are not observable state yet: only a write to a possibly published schema is a settings mutation
-				if bt&(TFresh|TDecoded) != 0 && bt&TFromTbl == 0 && n == a.Schema {
+				// settings of a schema (or a settings object) that is still private to this call (the caller's value, a
+				// freshly allocated or decoded one) are not observable state yet: only a write to a possibly
+				// published one is a settings mutation
+				if bt&(TFresh|TDecoded) != 0 && bt&TFromTbl == 0 {
 					break
 				}
 				x.emit(st, &Event{Kind: EvEffect, Eff: ECfgW, Instr: v, Tags: bt, VTags: vt, VNil: st.factOf(v.Val).Nil, Struct: n, Field: f})
